@@ -413,7 +413,10 @@ pub fn record(args: &[String]) {
             record_run::<B64, f64, _>(&mut out, "rosenN/f64", Own::RosenN, RosenbrockND {}, ni, eps * 0.01, l.min(17), steps, seed + 200 + c as u64, 1e-7, &mut moved);
             let si: Vec<Vec<f64>> = (0..n).map(|_| (0..d).map(|_| rnd(-3.0, 3.0)).collect()).collect();
             record_run::<B64, f64, _>(&mut out, "student/f64", Own::Student { nu: 3.0 }, StudentT { nu: 3.0 }, si.clone(), eps, l, steps, seed + 300 + c as u64, 1e-7, &mut moved);
-            record_run::<B32, f32, _>(&mut out, "student/f32", Own::Student { nu: 3.0 }, StudentT { nu: 3.0 }, si, eps, l, steps, seed + 300 + c as u64, 3e-4, &mut moved);
+            record_run::<B32, f32, _>(&mut out, "student/f32", Own::Student { nu: 3.0 }, StudentT { nu: 3.0 }, si.clone(), eps, l, steps, seed + 300 + c as u64, 3e-4, &mut moved);
+            // scalar type and backend precision differ
+            record_run::<B64, f32, _>(&mut out, "student/f32-on-f64", Own::Student { nu: 3.0 }, StudentT { nu: 3.0 }, si.clone(), eps, l, steps, seed + 301 + c as u64, 3e-4, &mut moved);
+            record_run::<B32, f64, _>(&mut out, "student/f64-on-f32", Own::Student { nu: 3.0 }, StudentT { nu: 3.0 }, si, eps, l, steps, seed + 302 + c as u64, 3e-4, &mut moved);
         }
         // bounded support / NaN region / overflowing step sizes (C14)
         let hi: Vec<Vec<f64>> = (0..n).map(|_| vec![rnd(0.2, 3.0), rnd(0.2, 3.0)]).collect();
